@@ -443,6 +443,12 @@ Definition ts_invb (fs : fsys) (d : document) : bool :=
   | _, _ => true
   end.
 
+(* the bookkeeping invariant the theorems assume (Pkgproof.WFd), as a boolean the correspondence evaluates on every state *)
+Definition WFdb (fs : fsys) (d : document) : bool :=
+  nodupb (map fst (parts (cont d))) && ts_invb fs d
+  && match cpath (cont d) with Some _ => negb (pk_eqb (pkg (cont d)) PXml) | None => true end
+  && forallb is_xml (map fst (xps d)).
+
 (* a saved zip: first entry mimetype STORED, unique names, manifest ~ entries, "/" carries the mimetype *)
 Definition zip_names (es : list (name * bool * bytes)) : list name := map (fun e => fst (fst e)) es.
 Definition zip_shapeb (es : list (name * bool * bytes)) : bool :=
@@ -513,11 +519,13 @@ Notation cdoc := (document cxml cbytes).
 Notation cfs := (fsys cbytes Z).
 Notation cop := (op cxml cbytes).
 Definition cstep (fx : fixes) := step cxml cbytes Z cser cpar cpretty cstamp centries cwith_entries ckids cmime cmime_bytes crdf0 fx.
+Definition cd_clone (fx : fixes) := d_clone cxml cbytes Z cser cpar fx.
 Definition cview := view cxml cbytes Z cpar cmask.
 Definition cfile_view := file_view cxml cbytes Z cpar cmask.
 Definition cPkgOKb := PkgOKb cxml cbytes Z cpar centries cmime.
 Definition cwfb := wfb cxml cbytes Z.
 Definition cts_invb := ts_invb cxml cbytes Z.
+Definition cWFdb := WFdb cxml cbytes Z.
 Definition czip_shapeb := zip_shapeb cxml cbytes cpar centries cmime.
 Definition cnames := names_of cxml cbytes Z.
 (* equality of two part maps over the names either side mentions *)
